@@ -5,6 +5,8 @@ CONSTANTS
  MaxOps = 0
  KeyMode = "resolve"
  LockRefTgt = TRUE
+ CtxKinds = {"bg", "cancelled"}
+ MarkCtx = FALSE
  Eager = TRUE
 SPECIFICATION Spec
 INVARIANTS TypeOK LocksNonNeg LocksExact MarkIsReach FallbackPresent CopyKeeps
